@@ -275,6 +275,15 @@ func (b *OptionalBounds) MaxZ() (z int32, ok bool) {
 	return *(b.maxz), true
 }
 
+// floorDiv divides rounding toward negative infinity, as block coordinates are defined:
+// voxel -5 lies in block -1 of 64-voxel blocks, not in block 0.
+func floorDiv(a, b int32) int32 {
+	if a < 0 {
+		return (a - b + 1) / b
+	}
+	return a / b
+}
+
 // Divide returns a new bounds that has all optionally set
 // bounds divided by the given point.
 func (b *OptionalBounds) Divide(pt Point3d) *OptionalBounds {
@@ -284,27 +293,27 @@ func (b *OptionalBounds) Divide(pt Point3d) *OptionalBounds {
 	newB := new(OptionalBounds)
 	if b.minx != nil {
 		newB.minx = new(int32)
-		*(newB.minx) = *(b.minx) / pt[0]
+		*(newB.minx) = floorDiv(*(b.minx), pt[0])
 	}
 	if b.maxx != nil {
 		newB.maxx = new(int32)
-		*(newB.maxx) = *(b.maxx) / pt[0]
+		*(newB.maxx) = floorDiv(*(b.maxx), pt[0])
 	}
 	if b.miny != nil {
 		newB.miny = new(int32)
-		*(newB.miny) = *(b.miny) / pt[1]
+		*(newB.miny) = floorDiv(*(b.miny), pt[1])
 	}
 	if b.maxy != nil {
 		newB.maxy = new(int32)
-		*(newB.maxy) = *(b.maxy) / pt[1]
+		*(newB.maxy) = floorDiv(*(b.maxy), pt[1])
 	}
 	if b.minz != nil {
 		newB.minz = new(int32)
-		*(newB.minz) = *(b.minz) / pt[2]
+		*(newB.minz) = floorDiv(*(b.minz), pt[2])
 	}
 	if b.maxz != nil {
 		newB.maxz = new(int32)
-		*(newB.maxz) = *(b.maxz) / pt[2]
+		*(newB.maxz) = floorDiv(*(b.maxz), pt[2])
 	}
 	return newB
 }
